@@ -65,6 +65,8 @@ pub fn dates(rng: &mut Rng, random: usize) -> Vec<NaiveDate> {
         let n = if rng.chance(1, 2) { rng.range(MIN_DAY, MAX_DAY) } else { rng.range(-3_700_000, 3_700_000) };
         if let Some(x) = mk(|| NaiveDate::from_num_days_from_ce_opt(n as i32)) { v.push(x); }
     }
+    // every binary scale of the range (years +-2^k and neighbours): the middle of the range, where nothing else looks
+    for (i, n) in scale_days().into_iter().enumerate() { if random >= 1000 || i % 2 == 0 { v.push(mk_date(n)); } }
     v
 }
 
